@@ -42,7 +42,9 @@ def one(pid, tpl, seed, keys, prop, mode, plen, wiring, history, idx):
         else:
             enc = ["password", "encrypt", "--env-pass"]
             dec = ["password", "decrypt", "--env-pass"]
-            pw_e = pw_d = "file pw %d" % idx
+            # passwords as the environment hands them over, exactly: white space at either end, a line ending, non-ASCII
+            pw_e = pw_d = ["file pw %d", "trailing blank %d ", "tab at the end %d\t", " leading blank %d", "line ending %d\n", "nbsp %d\u00a0",
+                           "pässwörd %d"][idx % 7] % idx
         if wiring == "files":
             r1 = cli.kestrel(enc[:1 if mode == "key" else 2] + [sb.path("plain.bin")] + enc[1 if mode == "key" else 2:] + ["-o", sb.path("ct.ktl")],
                              env={"KESTREL_PASSWORD": pw_e})
